@@ -714,7 +714,7 @@ Proof.
 Qed.
 
 (* ---------- what is not proved: stated ---------- *)
-(* the independent codec is self-consistent, for every parameter choice *)
+(* the independent codec is self-consistent, for every choice of its arguments *)
 Definition t81_roundtrip_statement : Prop :=
   forall sel tds tables dht_after extras w h comps P pixels s,
     t81_encode sel tds tables dht_after extras w h comps P pixels = Some s ->
@@ -727,129 +727,3 @@ Definition jll_decodes_t81_general_statement : Prop :=
     jll_decode s = Ok (pixels, w, h, comps, P) /\
     (sel = 1 -> sv1_decode s = Ok (pixels, w, h, comps, P)).
 
-(* ---------- the mincode/maxcode/valptr decoder IS the canonical decoder ---------- *)
-(* the canonical decoder: read bits until (length, code) is a code of the table (association
-   list of Annex C), at most 16 bits *)
-Fixpoint canon_decode (fuel : nat) (entries : list (Z * Z * Z)) (size code : Z) (st : rstate)
-  : option (Z * rstate) :=
-  match fuel with
-  | O => None
-  | S f =>
-    match read_bit st with
-    | None => None
-    | Some (b, st') =>
-      let code' := 2 * code + (if b then 1 else 0) in
-      match t81_find_code entries (size + 1) code' with
-      | Some v => Some (v, st')
-      | None => canon_decode f entries (size + 1) code' st'
-      end
-    end
-  end.
-
-(* the entries of the levels from [len] on, paired with the values from position p0 on *)
-Fixpoint ents (bits : list Z) (len first : Z) (vs : list Z) : list (Z * Z * Z) :=
-  match bits with
-  | [] => []
-  | b :: bs =>
-    combine (map (fun i => (len, first + i)) (seqZ 0 (Z.to_nat b))) (firstn (Z.to_nat b) vs)
-    ++ ents bs (len + 1) (2 * (first + b)) (skipn (Z.to_nat b) vs)
-  end.
-
-Lemma combine_app' : forall {A B} (a1 a2 : list A) (b : list B),
-  combine (a1 ++ a2) b = combine a1 (firstn (length a1) b) ++ combine a2 (skipn (length a1) b).
-Proof.
-  induction a1; intros a2 b; [reflexivity|]. destruct b; cbn [app combine length firstn skipn].
-  - destruct a2; reflexivity.
-  - f_equal. apply IHa1.
-Qed.
-
-Lemma entries_ents : forall bits len first vs,
-  combine (combine (map snd (canon0 bits len first)) (map fst (canon0 bits len first))) vs
-  = ents bits len first vs.
-Proof.
-  induction bits as [|b bs IH]; intros len first vs; [reflexivity|].
-  cbn [canon0 ents]. rewrite !map_app, !map_map. cbn [fst snd].
-  rewrite combine_app'. rewrite combine_app'.
-  rewrite !map_length, !seqZ_length. rewrite firstn_all2 by (rewrite map_length, seqZ_length; lia).
-  rewrite skipn_all2 by (rewrite map_length, seqZ_length; lia).
-  rewrite map_length, seqZ_length.
-  f_equal.
-  - f_equal. clear. generalize (seqZ 0 (Z.to_nat b)). induction l; [reflexivity|]. cbn [map combine]. f_equal. apply IHl.
-  - cbn [app]. apply IH.
-Qed.
-
-Lemma find_code_app : forall a b size code,
-  t81_find_code (a ++ b) size code =
-  match t81_find_code a size code with Some v => Some v | None => t81_find_code b size code end.
-Proof.
-  induction a as [|[[s c] x] a IH]; intros b size code; [reflexivity|].
-  cbn [app t81_find_code]. destruct ((s =? size) && (c =? code)); [reflexivity | apply IH].
-Qed.
-
-Lemma find_code_ents_above : forall bits len first vs size code, size < len ->
-  t81_find_code (ents bits len first vs) size code = None.
-Proof.
-  induction bits as [|b bs IH]; intros len first vs size code Hs; [reflexivity|].
-  cbn [ents]. rewrite find_code_app. rewrite IH by lia.
-  assert (H : forall l vs', t81_find_code (combine (map (fun i => (len, first + i)) l) vs') size code = None).
-  { induction l; intros vs'; [reflexivity|]. destruct vs'; [reflexivity|]. cbn [map combine t81_find_code].
-    destruct (Z.eqb_spec len size); [lia|]. cbn [andb]. apply IHl. }
-  rewrite H. reflexivity.
-Qed.
-
-Lemma find_code_level : forall n len first vs code s, (n <= length vs)%nat ->
-  t81_find_code (combine (map (fun i => (len, first + i)) (seqZ s n)) (firstn n vs)) len code =
-  if (first + s <=? code) && (code <? first + s + Z.of_nat n)
-  then Some (nth (Z.to_nat (code - first - s)) vs 0) else None.
-Proof.
-  induction n; intros len first vs code s Hn.
-  - cbn [seqZ map combine t81_find_code]. destruct (Z.leb_spec (first + s) code); destruct (Z.ltb_spec code (first + s + Z.of_nat 0)); cbn [andb]; try reflexivity; lia.
-  - destruct vs as [|v vs]; [simpl in Hn; lia|]. cbn [seqZ map firstn combine t81_find_code].
-    rewrite Z.eqb_refl. cbn [andb].
-    destruct (Z.eqb_spec (first + s) code) as [E|E].
-    + subst code. replace (first + s - first - s) with 0 by lia. cbn [Z.to_nat nth].
-      destruct (Z.leb_spec (first + s) (first + s)); [|lia].
-      destruct (Z.ltb_spec (first + s) (first + s + Z.of_nat (S n))); [reflexivity|lia].
-    + rewrite (IHn len first vs code (s + 1)) by (simpl in Hn; lia).
-      rewrite Nat2Z.inj_succ.
-      destruct (Z.leb_spec (first + (s + 1)) code); destruct (Z.leb_spec (first + s) code); try lia; cbn [andb].
-      * destruct (Z.ltb_spec code (first + (s + 1) + Z.of_nat n)); destruct (Z.ltb_spec code (first + s + Z.succ (Z.of_nat n))); try lia; [|reflexivity].
-        f_equal. replace (Z.to_nat (code - first - s)) with (S (Z.to_nat (code - first - (s + 1)))) by lia. reflexivity.
-      * reflexivity.
-      * reflexivity.
-Qed.
-
-Lemma mmv_eq_canon_aux : forall bits len first p0 vals acc st,
-  fits bits len first -> 0 <= first <= 2 * acc -> 1 <= len -> 0 <= p0 ->
-  p0 + zsum bits <= zlen vals ->
-  decode_loop (build_mmv bits first p0) vals acc st =
-  canon_decode (length bits) (ents bits len first (skipn (Z.to_nat p0) vals)) (len - 1) acc st.
-Proof.
-  induction bits as [|b bs IH]; intros len first p0 vals acc st Hf Ha Hl Hp Hn; [reflexivity|].
-  cbn [fits zsum fold_right] in *. destruct Hf as (Hb & Hfit & Hf').
-  assert (Hs : 0 <= zsum bs).
-  { pose proof (fits_nonneg _ _ _ Hf') as Hnn. clear -Hnn. induction Hnn; cbn [zsum fold_right]; [lia|].
-    unfold zsum in *. lia. }
-  unfold zsum in *.
-  cbn [length canon_decode ents].
-  replace (len - 1 + 1) with len by lia.
-  assert (Hrest : forall code' st', first + b <= code' ->
-            decode_loop (build_mmv bs (2 * (first + b)) (p0 + b)) vals code' st' =
-            canon_decode (length bs)
-              (combine (map (fun i => (len, first + i)) (seqZ 0 (Z.to_nat b)))
-                       (firstn (Z.to_nat b) (skipn (Z.to_nat p0) vals))
-               ++ ents bs (len + 1) (2 * (first + b)) (skipn (Z.to_nat b) (skipn (Z.to_nat p0) vals)))
-              len code' st').
-  { intros code' st' Hc.
-    rewrite (IH (len + 1) (2 * (first + b)) (p0 + b) vals code' st') by (assumption || lia).
-    replace (len + 1 - 1) with len by lia.
-    rewrite skipn_skipn. replace (Z.to_nat b + Z.to_nat p0)%nat with (Z.to_nat (p0 + b)) by lia.
-    (* the entries of this level never match a longer code *)
-    clear. generalize (length bs) as fuel. intros fuel. revert code' st' .
-    generalize (ents bs (len + 1) (2 * (first + b)) (skipn (Z.to_nat (p0 + b)) vals)) as E2.
-    generalize (combine (map (fun i : Z => (len, first + i)) (seqZ 0 (Z.to_nat b)))
-                        (firstn (Z.to_nat b) (skipn (Z.to_nat p0) vals))) as E1.
-    intros E1 E2. 
-    assert (HE1 : forall size code, len < size -> t81_find_code (E1 ++ E2) size code = t81_find_code E2 size code) by admit.
-    admit. }
-Abort.
